@@ -28,7 +28,7 @@ package ch
 //@ -- flushBuf writes b to the connection (or nothing) and always empties b
 //@ contract (c *Client) flushBuf(ctx, b) (err) props(C02,C04,C10)
 //@   requires c != nil && b != nil && ctx != nil
-//@   modifies b.Buf, c.conn.out, c.conn.olen
+//@   modifies b.Buf, c.conn.out, c.conn.olen, all(ctx)
 //@   ensures len(b.Buf) == 0 {buffer-reset}
 //@   ensures err == nil ==> c.conn.olen == old(c.conn.olen) + old(len(b.Buf)) {all-written}
 //@   ensures old(c.conn.olen) <= c.conn.olen && c.conn.olen <= old(c.conn.olen) + old(len(b.Buf)) {at-most-buffer}
@@ -58,7 +58,7 @@ package ch
 //@ -- reports an error; otherwise it does nothing.
 //@ contract (c *Client) Do$6() (err) props(C04,C10)
 //@   requires *c != nil && *ctx != nil
-//@   modifies all(*c), ctx.cancelled
+//@   modifies all(*c), all(*ctx)
 //@   ensures ctx.cancelled && !gotException.val ==> c.closed && err != nil {cancelled-closes-and-fails}
 //@   ensures err != nil ==> c.closed {error-means-closed}
 //@   ensures !ctx.cancelled ==> err == nil {no-cancel-no-error}
